@@ -633,15 +633,21 @@ func (e *Enc) encAppend(fr *Frame, st *State, cc *ssa.CallCommon, args []*Val, r
 		}
 		// new contents of backing nb: for j in [0,ln): old s[j]; for j in [ln, nlen): t[j-ln]; elsewhere: previous contents of nb (if in place) / arbitrary
 		na := e.fresh(k+"!app", "(Array Int "+esorts[i]+")")
+		// new contents of backing nb, stated per CELL k (pattern on the plain select: robust for e-matching):
+		// k in [no, no+ln): old s[k-no]; k in [no+ln, no+nlen): t[k-no-ln]
 		var src string
 		if isStr {
 			f := e.declFun("strat", []string{"Str", "Int"}, "Int")
-			src = "(" + f + " " + t.L[0].T + " (- j " + ln + "))"
+			src = "(" + f + " " + t.L[0].T + " (- (- k " + no + ") " + ln + "))"
 		} else {
-			src = "(select (select " + h + " " + tbase + ") (+ " + toff + " (- j " + ln + ")))"
+			src = "(select (select " + h + " " + tbase + ") (+ " + toff + " (- (- k " + no + ") " + ln + ")))"
 		}
-		oldAt := "(select (select " + h + " " + base + ") (+ " + off + " j))"
-		e.assert("(forall ((j Int)) (! (and (=> (and (<= 0 j) (< j " + ln + ")) (= (select " + na + " (+ " + no + " j)) " + oldAt + ")) (=> (and (<= " + ln + " j) (< j " + nlen + ")) (= (select " + na + " (+ " + no + " j)) " + src + "))) :pattern ((select " + na + " (+ " + no + " j)))))")
+		oldAt := "(select (select " + h + " " + base + ") (+ " + off + " (- k " + no + ")))"
+		e.assert("(forall ((k Int)) (! (and (=> (and (<= " + no + " k) (< k (+ " + no + " " + ln + "))) (= (select " + na + " k) " + oldAt + ")) (=> (and (<= (+ " + no + " " + ln + ") k) (< k (+ " + no + " " + nlen + "))) (= (select " + na + " k) " + src + "))) :pattern ((select " + na + " k))))")
+		if !isStr {
+			// appending exactly one element (the common case): the new cell directly
+			e.assert("(=> (= " + tlen + " 1) (= (select " + na + " (+ " + no + " " + ln + ")) (select (select " + h + " " + tbase + ") " + toff + ")))")
+		}
 		// in place: cells outside the appended window keep their value
 		e.assert(implies(fits, "(forall ((j Int)) (! (=> (or (< j (+ "+off+" "+ln+")) (>= j (+ "+off+" "+nlen+"))) (= (select "+na+" j) (select (select "+h+" "+base+") j))) :pattern ((select "+na+" j))))"))
 		// common special case: appending exactly one element gives a direct equation (helps the solvers)
